@@ -61,6 +61,18 @@ def gen_mags(rng, n):
         mags.append(P(p, 1))
         mags.append(merge(P(p, 1), P(2, rng.choice([1, -1, 2]))))
         mags.append(P(p, rng.choice([2, -1, Fraction(1, 2)])))
+    # huge factors that cancel: every intermediate base power is beyond FLT_MAX (resp. DBL_MAX) but below LDBL_MAX, while the
+    # exact value sits comfortably inside float's range — the arithmetic must be carried out in Widen<T> = long double
+    import math
+    for lo_e, hi_e in ((130, 1000), (1030, 12000)):
+        for _ in range(3):
+            a = rng.randrange(lo_e, hi_e)
+            q = rng.choice([3, 5, 7])
+            b = round(a / math.log2(q))
+            mags.append(merge(P(2, a), P(q, -b)))
+            mags.append(merge(P(2, -a), P(q, b)))
+        a = rng.randrange(lo_e, hi_e)
+        mags.append(merge(P(2, Fraction(2 * a + 1, 2)), P(5, -round((a + 0.5) / math.log2(5)))))
     mags.append({"pi": Fraction(1)})
     mags.append({"pi": Fraction(2)})
     mags.append({"pi": Fraction(-1), "p2": Fraction(1)})
